@@ -8,7 +8,7 @@ NAME=$(echo "$D" | tr '/' '_')
 WT=/tmp/try/$NAME
 rm -rf "$WT"; git -C /repo worktree prune
 git -C /repo worktree add -q --detach "$WT" HEAD || exit 2
-cleanup() { git -C /repo worktree remove --force "$WT" 2>/dev/null; rm -rf /tmp/try/out.$NAME; rm -f /verif/.bin/simcheck.[0-9]*; }
+cleanup() { git -C /repo worktree remove --force "$WT" 2>/dev/null; rm -rf /tmp/try/out.$NAME; rm -f /verif/.bin/simcheck.$(printf '%s' "$WT" | cksum | cut -d' ' -f1)*; }
 trap cleanup EXIT
 DEMO=$(ls "$D"/*_test.go 2>/dev/null | head -1)
 if [ -n "$DEMO" ]; then
